@@ -12,10 +12,11 @@ SPEC_MODULES = ("wire", "msg")
 PLUGINS = [MsgPlugin(), WirePlugin()]
 
 MSG = {"self": "model:msg"}
-PRE = [("well-formed-class", "WF()"), ("in-range-values", "TY()")]
+PRE = [("well-formed-class", "WF()"), ("fresh-defaults", "DEFAULTS()"), ("in-range-values", "TY()")]
 FRAME = ("observer-frame", "forall(0, NF, lambda jq: same(VAL(jq), old(VAL(jq)))) and GCARR() == old(GCARR())"
                            " and self._unknown_fields == old(self._unknown_fields)"
-                           " and self._serialized_on_wire == old(self._serialized_on_wire)")
+                           " and self._serialized_on_wire == old(self._serialized_on_wire)"
+                           " and HEAP_LIST() == old(HEAP_LIST()) and HEAP_DK() == old(HEAP_DK()) and HEAP_DV() == old(HEAP_DV())")
 
 LEMMAS = _s.LEMMAS + [
     LEMMA("ALLTY_NTH", {"t": "str", "w": "str", "xs": "objseq", "k": "int", "q": "int"},
@@ -73,9 +74,9 @@ def _loops(acc, lenmode):
         init = {"SL": "stream.data"}
     return {
         0: LOOP(index="fi", inv=[FRAME, outer]),
-        1: LOOP(index="ji", inv=[("buf", "buf == PACKED(F_ptype(fi), XS(value), ji) and ji <= CN(value)")]),
-        2: LOOP(index="ji", inv=[l2, ("bound", "ji <= CN(value)")], ghost_init=init),
-        3: LOOP(index="ji", inv=[l3, ("bound", "ji <= CN(value)")], ghost_init=init),
+        1: LOOP(index="ji", inv=[FRAME, ("buf", "buf == PACKED(F_ptype(fi), XS(value), ji) and ji <= CN(value)")]),
+        2: LOOP(index="ji", inv=[FRAME, l2, ("bound", "ji <= CN(value)")], ghost_init=init),
+        3: LOOP(index="ji", inv=[FRAME, l3, ("bound", "ji <= CN(value)")], ghost_init=init),
     }
 
 
